@@ -48,15 +48,20 @@ def plans(tier):
               ("load", 2, "10", 0, 2, 7, 0, 0)]
         return P
     for ver in ("10", "12"):
-        P += [("state", 1, ver, 1, 2, 1, 0, 0),
-              ("sendjoin", 1, ver, 1, 2, 1, 0, 0),
-              ("sendjoin", 2, ver, 1, 2, 7, 0, 0),
+        P += [("sendjoin", 1, ver, 1, 2, 1, 0, 0),
               ("chain", 1, ver, 1, 2, 1, 0, 0),
               ("chain", 2, ver, 1, 2, 1, 0, 0),
               ("atstate", 1, ver, 1, 1, 1, 0, 0),
               ("atstate", 2, ver, 1, 1, 1, 0, 0),
-              ("load", 1, ver, 1, 2, 1, 0, 0)]
-    P += [("state", 2, "10", 1, 2, 7, 0, 0),
+              ("load", 1, ver, 1, 2, 7, 0, 0)]        # pairs: one of the two is the newest event
+    P += [("state", 1, "10", 1, 2, 1, 0, 0),          # every pair
+          ("state", 1, "12", 1, 2, 7, 0, 0),
+          ("state", 1, "12", 0, 2, 1, 0, 0),
+          ("state", 2, "10", 1, 2, 9, 0, 0),
+          ("state", 2, "12", 1, 1, 1, 0, 0),
+          ("state", 2, "12", 0, 2, 7, 0, 0),
+          ("sendjoin", 2, "10", 1, 2, 7, 0, 0),
+          ("sendjoin", 2, "12", 1, 1, 1, 0, 0),
           ("load", 2, "12", 1, 1, 1, 0, 0),
           ("load", 2, "10", 0, 2, 7, 0, 0)]
     # the other event formats / rule sets, single faults
